@@ -6,6 +6,7 @@ M1: every crash point of the spec is produced for real (SIGKILL at the hook of t
     being written -- prefixes of a file written in place are reachable crash states); then a fresh process must obtain a
     correct assembler.
 M2: per-process hook traces of real concurrent compilations are validated by spec/CompileTrace.tla."""
+import hashlib
 import json
 import os
 import random
@@ -405,6 +406,67 @@ def scen_cold_start(ctx, exp, trials, nproc):
             return
 
 
+def scen_gated(ctx, exp, stage):
+    """A behaviour of CompileCache.tla forced on the real code with the gate hook: process B makes its request and is
+    held at `stage`; process A makes the same request and runs to completion (the entry is complete now); B is released.
+    Both must succeed, the completed entry must still be the SAME file with the same content (NoOverwrite), and a fresh
+    process must load it."""
+    cache = Path(ctx.scratch) / ('gate_' + stage)
+    cache.mkdir()
+    gate = cache / 'gate_open'
+    hang_exempt = True
+
+    def child(tag, gated):
+        c = Child.__new__(Child)
+        c.cache, c.forms = cache, ['mass2']
+        env = dict(os.environ)
+        env.update(XDG_CACHE_HOME=str(cache), PYTHONPATH=str(REPO), PYIGA_VERIF='1', PYTHONHASHSEED='0', OMP_NUM_THREADS='1')
+        for k in ('PYIGA_VERIF_COMPILE_FAULT', 'PYIGA_VERIF_TRACE', 'PYIGA_VERIF_COMPILE_GATE'):
+            env.pop(k, None)
+        if gated:
+            env['PYIGA_VERIF_COMPILE_GATE'] = '%s:%s' % (stage, gate)
+        c.resfile = cache / ('result_gate_%s.json' % tag)
+        env['C20_RESULT'] = str(c.resfile)
+        c.p = subprocess.Popen([PY, CHILD, 'mass2'], env=env, cwd=str(cache), stdout=subprocess.DEVNULL,
+                               stderr=subprocess.PIPE, start_new_session=True)
+        c.stderr = b''
+        return c
+
+    B = child('B', True)
+    t0 = time.time()
+    reached = Path(str(gate) + '.reached')
+    while not reached.exists() and B.p.poll() is None and time.time() - t0 < TIMEOUT:
+        time.sleep(0.1)
+    if not reached.exists():
+        B.killgroup()
+        B.p.communicate()
+        ctx.skip('gate stage %s not reached' % stage)
+        return
+    A = child('A', False)
+    rcA = A.wait()
+    sig = 'gated schedule: B held at %s while A completes' % stage
+    ctx.case(('gated', stage), nontrivial=True,
+             sample={'scenario': 'B held at a stage while A completes, then released', 'stage': stage} if stage == 'built' else None)
+    okA = judge(ctx, exp, A, rcA, sig + ' (process A)', {})
+
+    def entry():
+        out = []
+        for f in so_files(cache):
+            st = f.stat()
+            out.append((f.name, st.st_ino, st.st_size, hashlib.sha256(f.read_bytes()).hexdigest()[:16]))
+        return sorted(out)
+    before = entry()
+    gate.write_text('open')
+    # B sleeps in the gate by design: give it the time it spent there on top of the idle allowance
+    rcB = B.wait()
+    okB = judge(ctx, exp, B, rcB, sig + ' (process B, after release)', {'entry_after_A': before})
+    after = entry()
+    if okA and before and before != after:
+        ctx.violation('completed-entry-replaced gate=%s' % stage, {'entry_after_A': before, 'entry_after_B': after})
+    C = Child(cache, ['mass2'], tag='gC')
+    judge(ctx, exp, C, C.wait(), sig + ' (fresh process afterwards)', {'entry': after})
+
+
 def scen_clear_cache(ctx, exp):
     """CompileCache.ClearCache: one live interpreter compiles a form, the user clears the cache, the same interpreter
     compiles another form; then a fresh interpreter asks for both."""
@@ -574,6 +636,9 @@ def run(ctx):
             futs.append(pool.submit(scen_random_kill, ctx, exp, k, 7.0))
     futs.append(pool.submit(scen_aged_race, ctx, exp))
     futs.append(pool.submit(scen_clear_cache, ctx, exp))
+    for st in (['import_fail', 'built', 'published'] if not ctx.thorough else
+               ['import_fail', 'builddir', 'pyx_written', 'cythonized', 'built', 'published', 'cleaned']):
+        futs.append(pool.submit(scen_gated, ctx, exp, st))
     rf = [pool.submit(scen_race, ctx, exp, nm, plan) for nm, plan in races]
     for f in futs:
         f.result()
